@@ -50,16 +50,25 @@ def references(site: driver.Site, root: str, sel: bytes) -> typing.Dict[str, byt
     return out
 
 
-def prefix_enumeration(chk: Check, sc: Scratch, idx: int, n_entries: int, stride: int, handlers, hl_name: str) -> None:
+# where the cached directory lives: the root itself, or a sub-directory whose name (part of the cache file's path,
+# which ends up in log lines) holds characters that mean something to formatting, quoting or decoding layers
+DIR_NAMES = [None, "100%", "plain", "%s and %d%%", "{0} {name}", "it's \"q\"", "caf\udce9", None]
+
+
+def prefix_enumeration(chk: Check, sc: Scratch, idx: int, n_entries: int, stride: int, handlers, hl_name: str,
+                       dirname: typing.Optional[str] = None) -> None:
     rng = chk.subrng("dir", idx)
     root = sc.sub("p%d" % idx)
-    gen_dir(rng, n_entries).materialize(root)
+    where = root if dirname is None else os.path.join(root, dirname)
+    selb = b"/" if dirname is None else b"/" + os.fsencode(dirname)
+    gen_dir(rng, n_entries).materialize(where)
+    chk.count("cached_directory:" + ("root" if dirname is None else "named:" + ascii(dirname)))
     site = driver.Site(root, handlers=handlers, overrides={("handlers.dir.DirHandler", "cachetime"): "1000"})
     try:
-        ref = references(site, root, b"/")
-        req0, _ = reqs.render("gopher", b"/")
+        ref = references(site, root, selb)
+        req0, _ = reqs.render("gopher", selb)
         site.request(req0)
-        cpath = os.path.join(os.fsencode(root), CACHE)
+        cpath = os.path.join(os.fsencode(where), CACHE)
         if not os.path.exists(cpath):
             chk.note_inconclusive("no cache file was produced")
             return
@@ -77,7 +86,7 @@ def prefix_enumeration(chk: Check, sc: Scratch, idx: int, n_entries: int, stride
             with open(cpath, "wb") as fp:
                 fp.write(content)
             view = VIEWS[j % len(VIEWS)]
-            req, tls = reqs.render(view, b"/")
+            req, tls = reqs.render(view, selb)
             r = site.request(req, tls=tls)
             got = validate.normalize_ts(r.data)
             chk.count("faulted_cache_reads")
@@ -85,7 +94,8 @@ def prefix_enumeration(chk: Check, sc: Scratch, idx: int, n_entries: int, stride
                 exc = (r.exceptions() or [r.escaped[0][0] if r.escaped else "?"])[0]
                 what = "empty-reply" if not r.data else ("error-reply" if validate.validate(r, req).klass == "error" else "wrong-listing")
                 chk.witness("C11/dir-cache-%s:%s:%s" % (kind, what, exc),
-                            {"handler": hl_name, "cut": k, "size": size, "view": view, "reply": r.data[:200], "log": r.log[:3],
+                            {"handler": hl_name, "directory": ascii(dirname), "cut": k, "size": size, "view": view,
+                             "reply": r.data[:200], "log": r.log[:3],
                              "escaped": r.escaped[:1]})
                 return
             chk.case((hl_name, kind, k if kind == "prefix" else -1, size), {"handler": hl_name, "kind": kind, "cut": k,
@@ -520,7 +530,8 @@ def main() -> int:
             shard = chk.args.shard or 0
             for i, (n, stride) in enumerate(plan):
                 hl = [("umn", None), ("plain", driver.HANDLERS_PLAINDIR)][(i + shard) % 2]
-                prefix_enumeration(chk, sc, i + 100 * shard, n + (shard if not quick else 0), stride, hl[1], hl[0])
+                prefix_enumeration(chk, sc, i + 100 * shard, n + (shard if not quick else 0), stride, hl[1], hl[0],
+                                   dirname=DIR_NAMES[(i + shard) % len(DIR_NAMES)])
             if quick or shard == 0:
                 zip_cache_enumeration(chk, sc, 5 if quick else 1)
             hl = [("umn", None), ("plain", driver.HANDLERS_PLAINDIR)][shard % 2]
